@@ -20,9 +20,11 @@ Pats == <<
   [neg |-> FALSE, anch |-> FALSE, dir |-> FALSE, segs |-> <<"e">>],         \* 14 e
   [neg |-> TRUE,  anch |-> TRUE,  dir |-> FALSE, segs |-> <<"d", "a.md">>], \* 15 !d/a.md
   [neg |-> FALSE, anch |-> TRUE,  dir |-> FALSE, segs |-> <<"d", "*">>],    \* 16 d/*
-  [neg |-> TRUE,  anch |-> TRUE,  dir |-> FALSE, segs |-> <<"a.md">>]       \* 17 !/a.md
+  [neg |-> TRUE,  anch |-> TRUE,  dir |-> FALSE, segs |-> <<"a.md">>],      \* 17 !/a.md
+  [neg |-> TRUE,  anch |-> FALSE, dir |-> TRUE,  segs |-> <<"e">>],         \* 18 !e/   (a negated directory pattern re-includes the directory)
+  [neg |-> TRUE,  anch |-> FALSE, dir |-> TRUE,  segs |-> <<"d">>]          \* 19 !d/
 >>
-Text == <<"a.md", "/a.md", "d/a.md", "d/", "e/", "/e/", "*.md", "d/*.md", "**/a.md", "d/**", "?.md", "!a.md", "d/e", "e", "!d/a.md", "d/*", "!/a.md">>
+Text == <<"a.md", "/a.md", "d/a.md", "d/", "e/", "/e/", "*.md", "d/*.md", "**/a.md", "d/**", "?.md", "!a.md", "d/e", "e", "!d/a.md", "d/*", "!/a.md", "!e/", "!d/">>
 \* universe: files as paths (seq of names), all directories implied
 Files == { <<"a.md">>, <<"b.md">>, <<"d", "a.md">>, <<"d", "b.md">>, <<"d", "e", "a.md">>, <<"d", "e", "b.md">>, <<"e", "a.md">> }
 IgnoreDirs == { <<>>, <<"d">> }            \* directories that may hold a .gitignore
